@@ -14,7 +14,8 @@ package main
 //                      AlphabeticalOrderKey.Transform / Restore of keys.go TRANSLATED to Gallina: conversions
 //                      between the byte-string key types and []byte (`[]byte(k)`, `K(b)`, `string(b)`) are
 //                      `GoBytes.bytes_conv` (the identity on the byte sequence: Go's conversions between string
-//                      and []byte copy the bytes), `:=` is `let`, `return a, b` is a pair; anything else becomes
+//                      and []byte copy the bytes), a slice expression that takes the whole sequence (`x[:]`,
+//                      `x[:len(x)]`, `x[:len(x):len(x)]`) is its operand, `:=` is `let`, `return a, b` is a pair; anything else becomes
 //                      a definition of type `untranslated` and the theorems about it stop type-checking.
 
 import (
@@ -262,6 +263,12 @@ func translateAlphaCodec(repo string) string {
 				}
 			case *ast.ParenExpr:
 				return expr(e.X)
+			case *ast.SliceExpr:
+				// x[:], x[:len(x)], x[:len(x):len(x)], x[0:...]: the whole byte sequence again
+				whole := func(b ast.Expr) bool { return b == nil || exprText(b) == "len("+exprText(e.X)+")" }
+				if (e.Low == nil || exprText(e.Low) == "0") && whole(e.High) && whole(e.Max) {
+					return expr(e.X)
+				}
 			case *ast.CallExpr:
 				// a conversion between byte-string types: []byte(x), K(x), string(x)
 				if len(e.Args) == 1 && !e.Ellipsis.IsValid() {
